@@ -1631,5 +1631,69 @@ theorem procReaddir_whole (s s' : St) (c : Ctx) (args : Bytes) (a : Option Rfc.F
               rw [List.map_congr_left hid]
               simp
 
+/-- the same for READDIRPLUS: a call from cookie 0 answered NFS3_OK with eof carries exactly the names of the backend's
+    directory that the listing loop accepts, in name order, whatever the directory cache holds -/
+theorem procReaddirplus_whole (s s' : St) (c : Ctx) (args : Bytes) (a : Option Rfc.Fattr) (verf : Bytes)
+    (ents : List Rfc.DirEntPlus) (hI : CInv s) (hS : DcSup s) (hd : Nat) (r1 r2 : Bytes) (n : Node)
+    (hfh : decFh' s args = some (hd, r1)) (hck : decU64 r1 = some (0, r2)) (hn : nodeOf s hd = some n)
+    (h : procReaddirplus s c args = (s', .res ⟨0, .readdirplusOk a verf ents true⟩)) :
+    ents.map (·.name) = ((Fs.sortByName (Fs.children s.fs (fsPath n.path))).map (·.1)).filter (listable n.path) := by
+  unfold procReaddirplus at h
+  rw [hfh] at h
+  simp only [hck] at h
+  split at h
+  · simp [res] at h
+  · split at h
+    · simp [res] at h
+    · split at h
+      · simp [res] at h
+      · simp only [hn] at h
+        split at h
+        · simp [res] at h
+        · split at h
+          · simp [res] at h
+          · rename_i s1 nodes0 hrd
+            split at h
+            · simp [res] at h
+            · rename_i s3 at' hg
+              split at h
+              · simp [res] at h
+              · rename_i s4 ents' lim hfill
+                simp only [res, Prod.mk.injEq, Outcome.res.injEq, Rfc.Res.mk.injEq, Rfc.Body.readdirplusOk.injEq, true_and] at h
+                obtain ⟨_, _, _, hents, hlim⟩ := h
+                have hcl := nodeOf_cleanI hI hn
+                have hlist := readDir_is_backend s c.now n nodes0 hI hS hcl (by rw [hrd])
+                have hlimF : lim = false := by cases lim <;> simp_all
+                generalize hL : (if _ < dirListHeader + dirListTrailer then minReaddirplusReply else _) = limit at hfill
+                have hlim0 : dirListHeader + dirListTrailer ≤ limit := by
+                  rw [← hL]; split
+                  · decide
+                  · omega
+                have hps := pagePlus_spec limit 0 s3 (refreshEach s1 c.now nodes0).2 (Nat.zero_le _) hlim0
+                rw [hfill] at hps
+                obtain ⟨k, hk1, hstrip, _, _, hall, _⟩ := hps
+                have hk2 := hall hlimF
+                simp only [List.drop_zero] at hk2 hstrip
+                rw [hk2, List.take_length] at hstrip
+                have hnames : ents'.map (·.name) = (ents'.map stripPlus).map (·.name) := by
+                  simp [List.map_map, Function.comp_def, stripPlus]
+                rw [← hents, hnames, hstrip, numbered_names]
+                have hmm : (refreshEach s1 c.now nodes0).2.map (fun n' => baseName n'.path) =
+                    ((refreshEach s1 c.now nodes0).2.map (·.path)).map baseName := by
+                  simp [List.map_map, Function.comp_def]
+                rw [hmm, (refreshEach_spec s1 c.now nodes0).1, hlist, List.map_map]
+                have hid : ∀ x ∈ ((Fs.sortByName (Fs.children s.fs (fsPath n.path))).map (·.1)).filter (listable n.path),
+                    (baseName ∘ joinName n.path) x = x := by
+                  intro x hx
+                  have hl := (List.mem_filter.mp hx).2
+                  have hns : NoSep x := by
+                    unfold listable at hl
+                    simp only [Bool.and_eq_true, Bool.not_eq_true', decide_eq_false_iff_not, not_or] at hl
+                    refine ⟨hl.1.2.2.1, ?_, hl.1.1, hl.1.2.1⟩
+                    intro h47; exact hl.1.2.2.2.1 (by simpa using h47)
+                  exact baseName_joinName n.path x hns
+                rw [List.map_congr_left hid]
+                simp
+
 end Server
 end Absnfs
